@@ -49,6 +49,14 @@ theorem C14.sent_headers_fit (P seq : Nat) (m : Bytes) (hP : 0 < P) (ds : List D
   have _ := hP
   exact sent_headers_fit_lem P seq m ds h
 
+/-- datagram size: no emitted segment carries more than `P` payload bytes (so the encoded datagram is at most
+    `P + 8` bytes, the transport's maximum datagram frame), and every segment but the last is full - the
+    sender cuts at multiples of `P` only. -/
+theorem C14.sent_payloads_fit (P seq : Nat) (m : Bytes) (hP : 0 < P) (ds : List Dg)
+    (h : segments P seq m = some ds) :
+    ∀ d ∈ ds, d.payload.length ≤ P ∧ d.encode.length ≤ P + 8 ∧ (d.idx ≠ d.maxIdx → d.payload.length = P) :=
+  sent_payloads_fit_lem P seq m hP ds h
+
 /-- REASSEMBLY: for any arrival order, any interleaving with other messages, any losses and any arrival
     times, the receiver (started empty) outputs exactly what `spec` says: the original bytes at the moment all
     segments of a message are in, and nothing otherwise. -/
